@@ -279,6 +279,11 @@ def _rows(ct, tier, seed):
                 t = np.array(b['table'], dtype=float)
                 t = t[np.argsort(t[:, 0], kind='stable')]          # "the linear interpolation of the tabulated data": over increasing wavelength
                 want = np.interp(ws, t[:, 0], t[:, 1])
+            shape_ok = got.shape == ws.shape
+            note('C18.rows.array_argument_gives_one_index_per_wavelength', shape_ok, '%s: n() of %d wavelengths has shape %s' % (r['filename'], nw, got.shape), inputs)
+            if not shape_ok:
+                note('C18.rows.index_equals_definition_on_the_stated_range', False, '%s: result has shape %s, values %s' % (r['filename'], got.shape, np.ravel(got)[:3]), inputs)
+                continue
             ok = np.allclose(got, want, rtol=1e-9, atol=1e-12, equal_nan=True)
             note('C18.rows.index_equals_definition_on_the_stated_range', ok,
                  'max dev %.3e at %s' % (np.nanmax(np.abs(got - want)) if got.shape == want.shape else float('nan'), r['filename']), inputs)
@@ -286,7 +291,8 @@ def _rows(ct, tier, seed):
             buf = ws.copy()
             m.n(buf)
             buf[:] = buf[::-1].copy()
-            note('C18.rows.array_argument_is_read_at_call_time', bool(np.allclose(np.array(m.n(buf), dtype=float), got[::-1], rtol=1e-10, atol=0, equal_nan=True)),
+            again = np.array(m.n(buf), dtype=float)
+            note('C18.rows.array_argument_is_read_at_call_time', bool(again.shape == got.shape and np.allclose(again, got[::-1], rtol=1e-10, atol=0, equal_nan=True)),
                  r['filename'], inputs)
             s = m.n(float(ws[nw // 2]))
             note('C18.rows.scalar_and_array_arguments_agree', np.allclose(float(np.ravel(s)[0]), got[nw // 2], rtol=1e-13, atol=0, equal_nan=True),
